@@ -50,11 +50,207 @@ H("k07a_stored_rewrite_10", "deflate_reader", ["C07", "C03"], tier="thorough", u
   claim="as k07a_stored_rewrite_7 with N = 10", functions=STORED_FUNCS, bounds="all 10-byte inputs, payload 0..=5",
   assumptions=["input seam Src<N>"])
 
+FIXED_FUNCS = ["DeflateReader::decode_block", "huffman_helper::decode_symbol", "BitReader::get", "PreflateTokenBlock::add_literal/add_reference",
+               "DeflateWriter::encode_block/encode_block_with_decoder (fixed arm)", "HuffmanWriter::write_literal/write_distance",
+               "preflate_constants::quantize_length/quantize_distance + base/extra tables", "BitWriter::write/pad", "DeflateReader::read_eof_padding"]
+FIXED_ASSUME = ["fixed Huffman tables = constants printed natively from the current source on this run (stubs for create_fixed / start_fixed_huffman_table); equality re-checked under Kani by k07b0_fixed_tables_eq (thorough)",
+                "input seam Src<N>"]
+FIXED_UW = {"decode_symbol": 11, "BitReader.*get": 6, "bit_writer::BitWriter::flush_whole_bytes": 5, "bit_writer::BitWriter::pad": 9}
+FIXED_UW = {"decode_symbol": 11, "BitReader.*get": 6, "bit_writer::BitWriter::flush_whole_bytes": 5, "bit_writer::BitWriter::pad": 9,
+            "decode_block": 3, "RefBits.*::bits": 14, "RefBits.*code_bits": 8, "ref_fixed_block": 10, "fixed_rewrite": 10}
+H("k07b_fixed_token_6", "deflate_reader", ["C07", "C03", "C02", "C05"], unwind=7, unwindset=FIXED_UW, timeout=1500, mem_gb=14, needs_gen=True,
+  claim="fixed-Huffman block with one token: token and consumed length equal the RFC 1951 reference decoder's, and parse -> re-serialise reproduces the consumed bytes",
+  functions=FIXED_FUNCS, bounds="every fixed-Huffman block holding at most one token then EOB within 6 bytes: all 256 literals, every (length 3..258, distance 1..32768) with every extra-bit pattern, length 258 as 285 and as 284+31, all final padding patterns, both final-flag values",
+  outside="blocks with 2 or more tokens (k07b_fixed_rewrite_3)", assumptions=FIXED_ASSUME + ["write_literal/write_reference stubbed to no-ops, window pre-filled with 32768 bytes so every distance is legal (plaintext is checked by k03b_fixed_plain_3)",
+              "token-count bound assumed on the RFC reference before the real decoder runs; the real decoder's unwinding assertion discharges it"])
+H("k07b_fixed_rewrite_3", "deflate_reader", ["C07", "C03", "C05"], unwind=7, unwindset=dict(FIXED_UW, decode_block=4), timeout=1200, mem_gb=14, needs_gen=True,
+  claim="as k07b_fixed_token_6 for blocks of <= 2 tokens", functions=FIXED_FUNCS, bounds="every fixed-Huffman block with <= 2 tokens ending within 3 bytes", assumptions=FIXED_ASSUME)
+H("k03b_fixed_plain_3", "deflate_reader", ["C03", "C05"], unwind=7, unwindset=dict(FIXED_UW, decode_block=4, write_reference=120, **{"fixed_rewrite": 125}), timeout=1500, mem_gb=14, needs_gen=True,
+  claim="plain_text produced by the real write_literal/write_reference equals the replay of the RFC reference's tokens over the same window",
+  functions=FIXED_FUNCS + ["DeflateReader::write_literal", "DeflateReader::write_reference"], bounds="fixed blocks of <= 2 tokens within 3 bytes over a 4-byte window (distances 1..4+produced, lengths up to 114)",
+  assumptions=FIXED_ASSUME)
+H("k07b0_fixed_tables_eq", "huffman_encoding", ["C07", "C03"], tier="thorough", unwind=4, unwindset={"huffman": 600, "k07b0": 600, "Vec|vec": 600}, timeout=3000, mem_gb=16, needs_gen=True,
+  claim="HuffmanReader::create_fixed / HuffmanWriter::start_fixed_huffman_table return exactly the precomputed constants", functions=["HuffmanReader::create_fixed", "HuffmanWriter::start_fixed_huffman_table", "calculate_huffman_code_tree", "calc_huffman_codes"],
+  bounds="concrete (no symbolic input)")
+H("k03d_fixed_code_vs_rfc", "huffman_encoding", ["C03", "C07"], unwind=12, timeout=600, needs_gen=True,
+  claim="for every symbol of the fixed code: writer table = RFC 1951 §3.2.6 code (bit-reversed), and the real decode_symbol over the fixed tree maps that code back to the symbol; same for the 32 distance codes",
+  functions=["huffman_helper::decode_symbol", "fixed tables (generated)"], bounds="all 288 literal/length symbols x all 32 distance symbols",
+  assumptions=["fixed tables = generated constants (see k07b0_fixed_tables_eq)"])
+
+# ---------------------------------------------------------------- correction codec (C10)
+CABAC_FUNCS = ["PredictionCabacContext::encode_value/encode_misprediction/encode_correction/flush_encode",
+               "PredictionCabacContext::decode_value/decode_misprediction/decode_correction", "write_exp_encoded/read_exp_value",
+               "write_bypass/read_bypass", "cabac::traits put_unary_encoded/put_n_bits/get_unary_encoded/get_n_bits (provided methods, real code)"]
+CABAC_ASSUME = ["VP8 arithmetic coder replaced by a transparent tagged channel (bit, context-slot id); the decoder must present the same slot"]
+for w in ("8", "16"):
+    H("k10a_exp_pair_" + w, "cabac_codec", ["C10", "C05"], unwind=34, timeout=600,
+      claim="read_exp_value(write_exp_encoded(v)) == v, same context slots, channel fully consumed (%s-slot context arrays)" % w,
+      functions=CABAC_FUNCS[2:3] + CABAC_FUNCS[4:], bounds="every v < 2^31", assumptions=CABAC_ASSUME)
+for k in ["value", "misprediction"] + ["correction_%d" % i for i in range(10)]:
+    H("k10b_single_" + k, "cabac_codec", ["C10", "C05"], unwind=34, timeout=600,
+      claim="one %s operation, then finish, decodes to itself" % k, functions=CABAC_FUNCS,
+      bounds="values v < 2^31 / widths 1..=16 with v < 2^width / both flags; 7 misprediction contexts symbolic; one harness per correction context (10)",
+      assumptions=CABAC_ASSUME)
+for a in "012":
+    for b in "012":
+        for c in "012":
+            H("k10c_p%s%s%s" % (a, b, c), "cabac_codec", ["C10"], unwind=18, timeout=600,
+              claim="every sequence of 3 operations of kinds (%s,%s,%s) [0=value,1=misprediction,2=correction] round-trips, uses identical context slots, leaves the channel and default_count empty" % (a, b, c),
+              functions=CABAC_FUNCS, bounds="kinds concrete per harness (27 harnesses = all kind sequences of length 3); values < 64, widths <= 4, misprediction contexts symbolic, correction contexts by position (DistOnly, Len, Len)",
+              outside="sequences longer than 3; larger values inside sequences (single ops cover the full range); other context patterns inside sequences", assumptions=CABAC_ASSUME + ["correction contexts concrete at every call site (a symbolic context index produced a non-reproducing CBMC counterexample; DESIGN §C10)"])
+H("k02g_diff_coding", "cabac_codec", ["C02", "C04"], unwind=3, claim="decode_difference(p, encode_difference(p, a)) == a",
+  functions=["cabac_codec::encode_difference", "cabac_codec::decode_difference"], bounds="all p, a < 2^30")
+
+# ---------------------------------------------------------------- scanner (C01, C05, C06)
+SCAN_CONTRACTS = ["contract stub decompress_deflate_stream: Err | Ok with 1 <= compressed_size <= len, plaintext 1024 or 1025 bytes",
+                  "contract stub skip_gzip_header: Err | Ok after consuming 10..=16 bytes (discharged by k01_gzip_hdr_16)",
+                  "contract stub parse_zip_stream: Err | Ok((h, r)) with 30 <= h, h + r.compressed_size <= len (discharged by k01_zip_hdr_34)",
+                  "contract stub parse_idat: Err | Ok with 12 <= total_chunk_length <= len (discharged by k01e_idat_total)"]
+H("k01a_scan_tiling_7", "scan_deflate", ["C01", "C05"], unwind=10, timeout=1200, mem_gb=14,
+  claim="split_into_deflate_streams never panics and its chunks tile the file exactly (every literal length within the remaining bytes), for every outcome the callees' contracts allow",
+  functions=["scan_deflate::split_into_deflate_streams", "scan_deflate::next_signature"], bounds="every file of exactly 7 bytes x every contract-allowed callee outcome",
+  outside="longer files; the IDAT acceptance branch needs total_chunk_length > 1024 (see k01a_scan_idat_arm)", assumptions=SCAN_CONTRACTS)
+H("k01_gzip_hdr_16", "scan_deflate", ["C01", "C05", "C06"], unwind=18, timeout=900,
+  claim="skip_gzip_header: Ok or Err, never panics; Ok implies >= 10 bytes consumed, CM == 8, cursor within the input", functions=["scan_deflate::skip_gzip_header"],
+  bounds="every input of <= 16 bytes incl. truncated ones (EOF-reporting source), all FLG combinations", assumptions=["input seam SrcEof<N>"])
+H("k01_zip_hdr_34", "scan_deflate", ["C01", "C05", "C06"], unwind=6, timeout=900, mem_gb=12,
+  claim="parse_zip_stream: Ok or Err, never panics; Ok((h, r)) implies 30 <= h and h + r.compressed_size <= len",
+  functions=["scan_deflate::parse_zip_stream", "ZipLocalFileHeader::create_and_load"], bounds="every input of <= 34 bytes (name/extra lengths any u16)",
+  assumptions=SCAN_CONTRACTS[:1])
+
+# ---------------------------------------------------------------- IDAT (C01)
+H("k01d_idat_desc_rt", "idat_parse", ["C01", "C04"], unwind=7, timeout=900, mem_gb=12,
+  claim="IdatContents::read_from_bytestream(write_to_bytestream(d)) preserves chunk sizes, zlib header and Adler-32",
+  functions=["IdatContents::write_to_bytestream", "IdatContents::read_from_bytestream", "write_varint", "read_varint"],
+  bounds="every chunk-size vector of length <= 2 with sizes < 2^30 (incl. zero-length chunks), any header/Adler bytes")
+H("k01e_idat_total_27", "idat_parse", ["C01", "C05"], unwind=8, unwindset={"crc32fast.*update": 30, "parse_idat": 4, "recreate_idat": 4, "idat_total": 29},
+  timeout=1500, mem_gb=14,
+  claim="parse_idat is total (Ok or Err, no panic); Ok implies 12 <= total_chunk_length <= len and recreate_idat reproduces exactly those input bytes",
+  functions=["idat_parse::parse_idat", "idat_parse::recreate_idat", "crc32fast shim"], bounds="every input of <= 27 bytes (one or two IDAT chunks, any trailing bytes)",
+  assumptions=["crc32fast replaced by the bit-serial shim (validated natively against the real crate)"])
+
+# ---------------------------------------------------------------- container chunks, I/O faults (C01, C13), zstd (C11), C ABI (C12)
+CONT_FUNCS = ["preflate_container::recreated_zlib_chunks", "preflate_container::read_chunk_block", "preflate_container::write_chunk_block",
+              "read_varint/write_varint", "std read_exact / write_all loops (real)"]
+H("k01c_literal_chunks_rt", "preflate_container", ["C01", "C13", "C04"], unwind=9, timeout=900, mem_gb=12,
+  claim="literal chunks written by write_chunk_block are reproduced verbatim by recreated_zlib_chunks", functions=CONT_FUNCS,
+  bounds="every file of <= 6 bytes split into <= 2 literal chunks at every split point")
+H("k13a_fragmented_io", "preflate_container", ["C13"], unwind=14, timeout=1500, mem_gb=14,
+  claim="recreated_zlib_chunks gives the same output for every read fragmentation (1..n bytes per call, up to 2 Interrupted results) and every partial-write pattern",
+  functions=CONT_FUNCS, bounds="all literal containers of a <= 6-byte file in <= 2 chunks x all fragmentations", outside="deflate / IDAT chunks under fragmentation",
+  assumptions=["FragRead / FragWrite: solver-chosen short reads, Interrupted, partial writes"])
+H("k13b_io_faults", "preflate_container", ["C13", "C05"], unwind=14, timeout=1500, mem_gb=14,
+  claim="a hard I/O error at any source or destination offset yields Err without panic, and the bytes accepted so far are a prefix of the original file",
+  functions=CONT_FUNCS, bounds="same containers x fault at every source offset 0..len and every destination offset, combined with fragmentation",
+  assumptions=["FragRead / FragWrite fault injection"])
+ZSTD_ASSUME = ["zstd replaced by the framing model in /verif/shims/zstd (FFI cannot be encoded): the claim is about preflate-rs's plumbing given a zstd meeting that contract"]
+H("k11a_zstd_roundtrip", "preflate_container", ["C11", "C01"], unwind=9, timeout=1200, mem_gb=14,
+  claim="decompress_zstd(compress_zstd(F), cap) == F when cap >= expanded size and Err when smaller (no truncated Ok, no panic)",
+  functions=["compress_zstd", "decompress_zstd", "expand_zlib_chunks", "split_into_deflate_streams", "recreated_zlib_chunks"],
+  bounds="every file of <= 3 bytes x every capacity 0..=16", assumptions=ZSTD_ASSUME)
+H("k11b_zstd_not_a_frame", "preflate_container", ["C11", "C05"], unwind=12, timeout=1200, mem_gb=14,
+  claim="input that is not a well-formed frame gives Err; well-formed frames with arbitrary content never panic",
+  functions=["decompress_zstd", "recreated_zlib_chunks", "read_chunk_block"], bounds="every input of <= 10 bytes x capacities 0..=16", assumptions=ZSTD_ASSUME)
+ABI_ASSUME = ZSTD_ASSUME + ["Kani models the catch_unwind intrinsic as a plain call of the closure (no unwinding semantics): 'never unwinds' is not decided"]
+H("k12a_wrapper_compress", "lib", ["C12"], unwind=9, unwindset={"k12a": 30}, timeout=1200, mem_gb=14,
+  claim="WrapperCompressZip: 0 only with *result_size <= capacity (= bytes produced), negative when the buffer is too small, guard bytes on both sides untouched, CBMC pointer checks pass",
+  functions=["WrapperCompressZip", "expand_zlib_chunks"], bounds="every input of <= 3 bytes x every capacity 0..=20", assumptions=ABI_ASSUME)
+H("k12b_wrapper_roundtrip", "lib", ["C12"], unwind=9, unwindset={"k12b": 16}, timeout=1200, mem_gb=14,
+  claim="WrapperCompressZip then WrapperDecompressZip returns the file for every sufficient capacity, negative status for every smaller one, never writes outside the buffer",
+  functions=["WrapperCompressZip", "WrapperDecompressZip", "recreated_zlib_chunks"], bounds="every file of <= 3 bytes x every output capacity 0..=6", assumptions=ABI_ASSUME)
+H("k12c_wrapper_decompress_garbage", "lib", ["C12", "C05"], unwind=14, timeout=1200, mem_gb=14,
+  claim="WrapperDecompressZip on arbitrary bytes: returns a status, never writes outside the buffer, 0 implies *result_size <= capacity",
+  functions=["WrapperDecompressZip"], bounds="every input of <= 12 bytes x capacity 0..=4", assumptions=ABI_ASSUME)
+
 # ---------------------------------------------------------------- tree predictor
 H("k05b_tc_len_total", "tree_predictor", ["C05", "C01"], unwind=20,
   claim="calc_tc_lengths_without_trailing_zeros never indexes out of range and returns min(n,4)..=19",
   functions=["tree_predictor::calc_tc_lengths_without_trailing_zeros"],
   bounds="every u8 slice of length 1..=19 (calc_bit_lengths trims trailing zero symbols, so short slices occur)")
+
+TREE_FUNCS = ["tree_predictor::predict_ld_trees", "tree_predictor::reconstruct_ld_trees", "predict_code_type", "predict_code_data"]
+H("k02b_ld_mirror_14_3", "tree_predictor", ["C02", "C08", "C05"], unwind=16, timeout=1200, mem_gb=14,
+  claim="reconstruct_ld_trees(predict_ld_trees(pred, target)) == target and the codec is consumed exactly, for every predicted length vector and every target RLE sequence",
+  functions=TREE_FUNCS, bounds="predicted vectors of length <= 14 (any u8 values), target sequences of <= 3 RLE items (Code 0..15, Repeat 3..6, ZeroShort 3..10, ZeroLong 11..14) covering the vector exactly",
+  assumptions=["recording codec Rec"])
+H("k02b_ld_mirror_24_4", "tree_predictor", ["C02", "C08"], tier="thorough", unwind=26, timeout=3000, mem_gb=20,
+  claim="as k02b_ld_mirror_14_3 with vectors <= 24 and <= 4 items", functions=TREE_FUNCS, bounds="L <= 24, K <= 4", assumptions=["recording codec Rec"])
+H("k02c_tree_mirror", "tree_predictor", ["C02", "C08", "C05"], unwind=8, unwindset={"predict_code_type": 12, "predict_code_data": 140, "k02c": 21, "stub_calc_bit_lengths": 21,
+  "calc_tc_lengths": 20, "predict_tree_for_block": 20, "recreate_tree_for_block": 20},
+  timeout=2400, mem_gb=20, tier="thorough",
+  claim="recreate_tree_for_block(predict_tree_for_block(header)) == header: HLIT/HDIST/HCLEN flags and values, RLE items, code-length-alphabet corrections",
+  functions=["tree_predictor::predict_tree_for_block", "tree_predictor::recreate_tree_for_block", "calc_tc_lengths_without_trailing_zeros", "calc_codetree_freq"] + TREE_FUNCS,
+  bounds="HLIT 257..288, HDIST 1..32, HCLEN 4..19, predicted counts 257..286/1..30/1..19 symbolic, 3 RLE items (two long zero runs + any third), code-length-alphabet lengths any 0..7",
+  assumptions=["huffman_calc::calc_bit_lengths replaced by a deterministic stand-in of symbolic shape (both sides call it with equal arguments)", "recording codec Rec"])
+
+# ---------------------------------------------------------------- matcher over the model chain (C02, C05, C08)
+MODEL_ASSUME = ["model hash chain at the HashChain trait seam: solver-chosen candidate lists (<= 3 per position/offset, any order), same on both sides, update_hash no-op; the real hash tables (hash_chain.rs) are not executed",
+                "parameters symbolic over estimator_range (printed in harness/common.rs)", "valid_reference precondition: the reference's bytes match the text (guaranteed by decode_block)"]
+HOLDER_FUNCS = ["HashChainHolderImpl::calculate_hops", "HashChainHolderImpl::hop_match", "hash_chain_holder::prefix_compare", "PreflateInput::*"]
+HOLDER_UW = {"prefix_compare": 14, "valid_reference": 14, "ModelChain.*any": 14, "calculate_hops": 5, "hop_match": 5, "match_token_offset": 5, "from_fn": 5}
+for w in ("h3", "h4"):
+    H("k02d_hops_inverse_" + w, "hash_chain_holder", ["C02", "C08", "C05"], unwind=6, unwindset=HOLDER_UW, timeout=1800, mem_gb=16,
+      claim="if calculate_hops(target) = Ok(h) then hop_match(len, h) = Ok(target.dist) on the same chain; neither panics (%s-byte hash width)" % w[1],
+      functions=HOLDER_FUNCS, bounds="texts of 4..=12 bytes, every position, every valid reference, <= 3 chain candidates per position, every parameter vector in estimator_range",
+      outside="longer texts/chains; the real hash-table walk", assumptions=MODEL_ASSUME)
+    for o in ("o0", "o1"):
+        H("k05e_match_total_%s_%s" % (w, o), "hash_chain_holder", ["C05", "C08", "C02"], unwind=6, unwindset=HOLDER_UW, timeout=1800, mem_gb=16,
+          claim="match_token_offset::<%s> never panics (prefix_compare assertion, slice bounds, max_chain arithmetic) and a Success result is a valid reference into the text (%s-byte hash width)" % (o[1], w[1]),
+          functions=["HashChainHolderImpl::match_token_offset", "hash_chain_holder::prefix_compare"],
+          bounds="texts of 3..=12 bytes, every position >= 1 with >= 3 bytes left, <= 3 candidates, estimator_range; offset-1 calls with prev_len >= 3 and remaining >= prev_len + 2 as predict_token guarantees",
+          assumptions=MODEL_ASSUME)
+
+TOKEN_FUNCS = ["TokenPredictor::predict_block", "TokenPredictor::recreate_block", "TokenPredictor::predict_token", "TokenPredictor::repredict_reference",
+               "TokenPredictor::commit_token", "HashChainHolderImpl::{match_token_offset, calculate_hops, hop_match, update_hash}", "DictionaryAddPolicy::update_hash",
+               "prefix_compare", "encode_difference/decode_difference"]
+TOKEN_UW = dict(HOLDER_UW, **{"predict_block": 5, "recreate_block": 6, "any_tokens": 5, "token_mirror": 5, "same_ops": 50})
+for nm, lazy, w, tier in (("greedy_h3", False, 3, "quick"), ("lazy_h3", True, 3, "quick"), ("greedy_h4", False, 4, "quick"), ("lazy_h4", True, 4, "quick")):
+    H("k02e_token_mirror_" + nm, "token_predictor", ["C02", "C08", "C05"], unwind=6, unwindset=TOKEN_UW, timeout=2400, mem_gb=20, tier=tier,
+      claim="recreate_block(predict_block(tokens)) == tokens and the corrections are consumed exactly, or predict_block returns Err; no panic (%s matching rows, %d-byte hash width)" % ("lazy" if lazy else "greedy", w),
+      functions=TOKEN_FUNCS, bounds="texts of <= 8 bytes, every valid tokenisation of a prefix into <= 3 tokens (literals / valid references, irregular-258 flag), <= 2 candidates per position and offset, fixed or dynamic block type, last/non-last, every parameter vector in estimator_range with %s matching" % ("lazy" if lazy else "greedy"),
+      outside="longer texts, more tokens, longer chains, the real hash tables", assumptions=MODEL_ASSUME + ["recording codec Rec"])
+H("k02e_token_mirror_lazy_h3_t10", "token_predictor", ["C02", "C08"], unwind=6, unwindset=TOKEN_UW, timeout=7200, mem_gb=30, tier="thorough",
+  claim="as k02e_token_mirror_lazy_h3 with text <= 10, <= 4 tokens, <= 3 candidates", functions=TOKEN_FUNCS, bounds="T <= 10, 4 tokens, 3 candidates", assumptions=MODEL_ASSUME + ["recording codec Rec"])
+H("k02f_block_structure", "process", ["C02", "C08", "C05"], unwind=6, unwindset={"bit_writer::BitWriter::pad": 9, "k02f": 12, "same_ops": 50}, timeout=2400, mem_gb=20, needs_gen=True,
+  claim="decode_mispredictions(encode_mispredictions(blocks)) reproduces exactly the bytes the real writer emits for the blocks: block types, stored length/padding, TokenCount signalling, empty blocks, EOF flags, final padding",
+  functions=["process::encode_mispredictions", "process::predict_blocks", "process::decode_mispredictions", "process::recreate_blocks", "TokenPredictor::predict_block/recreate_block (literal-only paths)",
+             "DeflateWriter::encode_block", "DeflateWriter::flush_with_padding"],
+  bounds="every list of <= 3 blocks, each stored (<= 2 bytes, any 5 padding bits) or fixed-Huffman with <= 2 literals; max_token_count any u16 >= 1; any final padding byte; no dictionary (HashAlgorithm::None)",
+  outside="dynamic blocks (need the Huffman length calculator over 316 symbols), reference tokens (k02e)", assumptions=FIXED_ASSUME[:1] + ["recording codec Rec"])
+H("k03e_consumed_prefix", "process", ["C03", "C02", "C05"], unwind=10, timeout=1200, mem_gb=12,
+  claim="parse_deflate: compressed_size is the byte cursor after the final block; bytes after it influence nothing (replaced or removed: same result)",
+  functions=["process::parse_deflate", "DeflateReader::read_block (stored)", "DeflateReader::read_eof_padding"], bounds="all 8-byte inputs whose single final block is stored (payload 0..=3)")
+
+# ---------------------------------------------------------------- C04: kernel equivalence vs the frozen reference crate
+REF_ASSUME = ["reference = /verif/reference/preflate_ref (frozen copy of /repo at REFERENCE_COMMIT: pinned release + recorded fix: commits), linked into the same Kani run",
+              "both sides are reached through the same plain-typed export module text (/verif/reference/export/*.rs) compiled against each tree"]
+def K4(name, module, claim, functions, bounds, **kw):
+    H(name, module, ["C04"] + kw.pop("also", []), claim=claim, functions=functions, bounds=bounds, assumptions=REF_ASSUME, needs_ref=True, **kw)
+K4("k04a_hash_equiv", "hash_algorithm", "all 8 hash functions (7 algorithms + libdeflate's secondary 3-byte hash) return the reference build's value", ["*Hash::get_hash", "num_hash_bytes"],
+   "every 4-byte input; Zlib rotating hash with every mask and shift <= 15", unwind=5, timeout=900)
+K4("k04b_enum_discriminants", "statistical_codec", "numbering of CodecCorrection/CodecMisprediction (context indices), strategies, block types, tree code types, chunk tags, version and match constants equals the reference build's",
+   ["enum discriminants", "format constants"], "all variants (concrete)", unwind=21, timeout=600)
+K4("k04c_add_policy_calls", "add_policy_estimator", "DictionaryAddPolicy::update_hash makes the same dictionary insertions as the reference build and only in-range ones; is_at_32k_boundary agrees",
+   ["DictionaryAddPolicy::update_hash", "is_at_32k_boundary"], "5 policies x limit 0..=258 x pos < 2^30 x length 1..=258 x remaining input 1..=260", unwind=5, timeout=900, also=["C05"])
+K4("k03a_tables", "preflate_constants", "length/distance base and extra tables equal RFC 1951's, quantize_* selects the code whose range contains the value, code-length order equals the RFC's; all equal the reference build's",
+   ["quantize_length", "quantize_distance", "LENGTH_/DIST_ BASE/EXTRA tables", "TREE_CODE_ORDER_TABLE"], "all 29/30 codes, all lengths 3..=258, all distances 1..=32768", unwind=3, timeout=600, also=["C03", "C07"])
+K4("k04d_zlib_lengths_3", "huffman_calc", "zlib-style Huffman length calculation returns the reference build's code lengths (tie-breaks included)", ["huffman_calc::calc_zlib::calc_bit_lengths", "pqdownheap"],
+   "3 symbols, frequencies 0..=3, limit 7", unwind=8, timeout=1500, mem_gb=16, outside="more symbols / larger frequencies: a tie-break change that needs > 4 symbols escapes")
+K4("k04d_zlib_lengths_4", "huffman_calc", "as k04d_zlib_lengths_3 with 4 symbols", ["huffman_calc::calc_zlib::calc_bit_lengths"], "4 symbols, frequencies 0..=3, limit 7", unwind=9, timeout=3000, mem_gb=20, tier="thorough")
+K4("k04e_rle_predictor_equiv", "tree_predictor", "predict_code_type / predict_code_data return the reference build's prediction", ["predict_code_type", "predict_code_data"],
+   "every slice of 1..=12 code lengths, with/without previous code, every code type", unwind=14, timeout=900)
+K4("k04e_rle_long_runs", "tree_predictor", "run-length thresholds (3, 6, 10, 11, 138) agree with the reference build on long runs", ["predict_code_type", "predict_code_data"],
+   "all-zero and all-equal runs of every length 1..=140 (concrete content, symbolic length)", unwind=142, timeout=1500, mem_gb=12)
+K4("k04e_ld_ops_equiv", "tree_predictor", "calc_tc_lengths_without_trailing_zeros, calc_codetree_freq and the correction sequence of predict_ld_trees equal the reference build's",
+   ["calc_tc_lengths_without_trailing_zeros", "predict_ld_trees", "calc_codetree_freq"], "all 19-entry length vectors; predicted vectors <= 10 with <= 2 RLE items", unwind=21, timeout=1500, mem_gb=14)
+K4("k04f_param_header_equiv", "preflate_parameter_estimator", "PreflateParameters::write emits the same field sequence (order, widths, values) as the reference build", ["PreflateParameters::write"],
+   "every parameter vector in estimator_range with min_len set", unwind=5, timeout=900)
+K4("k04g_nodict_params_equiv", "preflate_parameter_estimator", "the parameter vector estimated for dictionary-free streams (incl. default block size 16386) equals the reference build's",
+   ["estimate_preflate_parameters (Store / HuffOnly branch)", "extract_preflate_info", "estimate_preflate_strategy", "estimate_preflate_huff_strategy"], "one stored block / one literal-only fixed block (concrete)", unwind=5, timeout=900)
+K4("k04h_cabac_symbols_equiv", "cabac_codec", "binarisation: the (bit, context slot) symbols put on the arithmetic coder for two operations + finish equal the reference build's; encode/decode_difference agree",
+   ["PredictionCabacContext::encode_*", "write_exp_encoded", "flush_encode", "encode_difference", "decode_difference"], "all pairs of operations (3 kinds each), values < 256, widths 1..=8", unwind=18, timeout=1800, mem_gb=16)
+K4("k04i_container_bytes_equiv", "preflate_container", "varint bytes, literal chunk framing and IDAT descriptor layout equal the reference build's", ["write_varint", "write_chunk_block (literal)", "IdatContents::write_to_bytestream"],
+   "every u32; literal data <= 3 bytes; <= 2 chunk sizes < 2^28", unwind=8, timeout=900, also=["C01"])
 
 
 def version_gate(dst, verif):
